@@ -44,9 +44,11 @@ Section Split.
         subst j. symmetry. exact EK.
   Qed.
 
-  Lemma split_sound : SplitSound x Vcell.
+  Lemma split_strong q Lq : valid_at q Lq -> (exists c, In c (x_cells x) /\ rep (q, None) c) ->
+    (forall ce, In ce (split_cell x q) -> valid_at (fst ce) (Lq + 1) /\ centry_ok x ce) /\
+    (forall c, In c (x_cells x) -> rep (q, None) c -> exists ce, In ce (split_cell x q) /\ rep ce c).
   Proof.
-    intros q (Lq & Vq) (c0 & Hc0 & R0).
+    intros Vq (c0 & Hc0 & R0).
     (* q properly contains an index cell, so it is not a leaf *)
     destruct R0 as [[_ R0]|(_ & R0 & N0)]; [cbn in R0; discriminate|]. cbn [fst] in R0, N0.
     apply contains_iff in R0. rewrite (cid_range_min_valid q Lq Vq), (cid_range_max_valid q Lq Vq) in R0.
@@ -114,13 +116,13 @@ Section Split.
     - (* every produced entry is a valid child with sound contents *)
       intros ce H. rewrite !in_app_iff in H. destruct H as [H|[H|[H|H]]].
       + destruct (F1 ce H) as (Hp & Hr & ->). destruct (poe_entry k1 _ p1 (VK 1 ltac:(lia)) Hp Hr) as (E & C & _).
-        split; [rewrite E; exists (Lq + 1); apply VK; lia|exact C].
+        split; [rewrite E; apply VK; lia|exact C].
       + destruct (F0 ce H) as (p & _ & Hp & Hr & ->). destruct (poe_entry k0 _ p (VK 0 ltac:(lia)) Hp Hr) as (E & C & _).
-        split; [rewrite E; exists (Lq + 1); apply VK; lia|exact C].
+        split; [rewrite E; apply VK; lia|exact C].
       + destruct (F3 ce H) as (Hp & Hr & ->). destruct (poe_entry k3 _ p3 (VK 3 ltac:(lia)) Hp Hr) as (E & C & _).
-        split; [rewrite E; exists (Lq + 1); apply VK; lia|exact C].
+        split; [rewrite E; apply VK; lia|exact C].
       + destruct (F2 ce H) as (p & _ & Hp & Hr & ->). destruct (poe_entry k2 _ p (VK 2 ltac:(lia)) Hp Hr) as (E & C & _).
-        split; [rewrite E; exists (Lq + 1); apply VK; lia|exact C].
+        split; [rewrite E; apply VK; lia|exact C].
     - (* every index cell properly inside q is represented by one of them *)
       intros c Hc [[_ R]|(_ & R & N)]; [cbn in R; discriminate|]. cbn [fst] in R, N. apply contains_iff in R.
       destruct (in_cell_at x c Hc) as (j & Hj & Ej). subst c. rewrite <- it_id_at in R, N.
@@ -167,5 +169,11 @@ Section Split.
         destruct (F3 _ H) as (_ & Hr & _).
         exists (poe_cell x k3 p3). split; [rewrite !in_app_iff; auto|].
         apply (poe_entry k3 _ p3 (VK 3 ltac:(lia)) Hp Hr); [exact Hc'|rewrite <- it_id_at; exact A].
+  Qed.
+
+  Lemma split_sound : SplitSound x Vcell.
+  Proof.
+    intros q (Lq & Vq) H. destruct (split_strong q Lq Vq H) as [A B]. split; [|exact B].
+    intros ce Hce. destruct (A ce Hce) as [V C]. split; [exists (Lq + 1); exact V|exact C].
   Qed.
 End Split.
